@@ -74,7 +74,13 @@ def run_once(sc, schedule, seed=None, line_preempt=None):
             return local
         sched.tracer = tracer
     try:
-        ws = websocket.WebSocket(enable_multithread=True)
+        disp = None
+        if sc.get("dispatcher"):
+            # the way WebSocketApp builds its connection: writes go through DispatcherBase.send
+            import types as _types
+            from websocket._dispatcher import Dispatcher, SSLDispatcher
+            disp = (SSLDispatcher if sc["dispatcher"] == "ssl" else Dispatcher)(_types.SimpleNamespace(sock=None), 5)
+        ws = websocket.WebSocket(enable_multithread=True, dispatcher=disp)
         sock = schedworld.SSocket(net)
         sock.cid = 0
         sock.write_caps = sc.get("write_caps")
@@ -175,6 +181,11 @@ def scenarios(rng, tier):
         for caps in ([1], [2], [3], [1, 5], [4, 1], [7], None):
             scs.append(dict(name="send%d_caps%s" % (ns, caps), senders=payloads, write_caps=caps, bound=2 if ns == 2 else 1,
                             max_runs=400 if tier == "quick" else 4000))
+    # the same through a dispatcher object (the connection of a WebSocketApp)
+    for kind in ("plain", "ssl"):
+        for caps in ([1], [3], [4, 1], None):
+            scs.append(dict(name="disp_%s_send2_caps%s" % (kind, caps), senders=[b"\x01", b"\x02\x02"], write_caps=caps, bound=1, dispatcher=kind,
+                            max_runs=150 if tier == "quick" else 2000))
     # all compositions of a 7-byte frame as cap sequences (1 sender: partial writes alone)
     frame_len = 7
     comps = []
